@@ -315,3 +315,100 @@ def key_label(key) -> str:
     if kinds == {"int"}:
         return "full-subscript"
     return "region"
+
+
+# --------------------------------------------------------------------------
+# classes in which pyttb is known to break the property (see known_findings/C04.json).  Each function is a
+# pure function of the operation and of the state it meets; the cells put the tag into the clause name, so a
+# failure outside these classes can never be matched by a known finding.
+# --------------------------------------------------------------------------
+
+
+def long_lists(key) -> int:
+    return sum(1 for e in key["k"] if elem_kind(e) in ("list", "arr") and len(elem_list(e)) >= 2)
+
+
+def dense_tags(op: str, shape: Sequence[int], key, rhs=None) -> List[str]:
+    """op: 'read' | 'write'."""
+    tags = []
+    if key["f"] != "tuple":
+        return tags
+    if long_lists(key) >= 2 or (n_lists(key) >= 2 and op == "write" and rhs is not None and rhs["r"] == "array"):
+        tags.append("lists-paired")
+    elif advanced_split(key) and (op == "read" or (rhs is not None and rhs["r"] == "array")):
+        tags.append("adv-split")
+    if op == "write":
+        for m, e in enumerate(key["k"]):
+            if elem_kind(e) == "slice" and e["s"][1] is None and m < len(shape) and shape[m] == 1:
+                tags.append("open-slice-singleton")
+                break
+    return tags
+
+
+def _buggy_m_consulted_wrong(shape: Sequence[int], key, region_shape: Sequence[int]) -> bool:
+    """sptensor right-hand side: pyttb's running index ``m`` into value.shape is not advanced after an index
+    list; True when a later key element therefore reads a different extent than the right one and the
+    difference matters (size check of a later list, growth of a later open slice)."""
+    m_bug = 0
+    m_true = 0
+    for n, e in enumerate(key["k"]):
+        k = elem_kind(e)
+        if k == "int":
+            continue
+        if k == "slice":
+            if e["s"][1] is None and m_bug != m_true:
+                cur = shape[n] if n < len(shape) else 0
+                right = max(cur, region_shape[m_true]) if n < len(shape) else region_shape[m_true]
+                wrong = max(cur, region_shape[m_bug]) if n < len(shape) else region_shape[m_bug]
+                if right != wrong:
+                    return True
+            m_bug += 1
+            m_true += 1
+        else:
+            if m_bug != m_true and len(elem_list(e)) != region_shape[m_bug]:
+                return True
+            m_true += 1
+    return False
+
+
+def sparse_tags(op: str, shape: Sequence[int], key, rhs, stored_subs: np.ndarray,
+                stored_shape: Optional[Sequence[Any]] = None) -> List[str]:
+    """stored_subs / stored_shape: S.subs and S.shape before the operation (public attributes), used only to
+    know which stored row holds which subscript and whether an extent is held as a NumPy integer."""
+    tags = []
+    f = key["f"]
+    nstored = 0 if stored_subs is None or np.size(stored_subs) == 0 else int(np.shape(stored_subs)[0])
+    if op == "read":
+        if f == "tuple" and any(elem_kind(e) == "arr" and len(e["a"]) >= 2 for e in key["k"]):
+            tags.append("ndarray-list-read")
+        return tags
+    if f == "subs":
+        rows = sorted(tuple(r) for r in key["rows"])  # pyttb sorts the batch (np.unique)
+        byrow = dict(zip([tuple(r) for r in key["rows"]], rhs_values(rhs, len(key["rows"]))))
+        vals = [byrow[r] for r in rows]
+        M = len(rows[0])
+        if M > len(shape) and nstored > 0:
+            tags.append("order-growth-ones")
+        zeros = [v == 0 for v in vals]
+        if any(zeros) and not all(zeros):
+            tags.append("mixed-batch")
+        elif all(zeros) and nstored > 0 and M == len(shape):
+            stored = {tuple(int(x) for x in r): i for i, r in enumerate(np.asarray(stored_subs))}
+            where = [stored.get(r) for r in rows]
+            hit = [w for w in where if w is not None]
+            if hit and not (len(hit) == len(rows) and sorted(hit) == list(range(len(rows)))):
+                tags.append("subs-delete")
+        return tags
+    if f == "tuple" and rhs["r"] == "array":
+        new = grown_shape(shape, key)
+        rs = kept_shape(shape, key, new)
+        if len(key["k"]) > len(shape) and nstored > 0:
+            tags.append("sprhs-order-growth")
+        if _buggy_m_consulted_wrong(shape, key, rs):
+            tags.append("sprhs-list-extent")
+        if stored_shape is not None and any(
+            is_int(e) and e < 0 and m < len(stored_shape) and type(stored_shape[m]) is not int
+            for m, e in enumerate(key["k"])
+        ):
+            tags.append("sprhs-negint-npshape")
+    return tags
